@@ -57,7 +57,17 @@ for pid in args:
                   'every line but changes WHEN or HOW OFTEN something happens: a statement moved across a loop, a try, a yield or a '
                   'condition; something hoisted out of or sunk into a loop; a cache or memo added; an early exit added or removed; a '
                   'default changed.')
-        if rnd >= 6:
+        if rnd >= 7:
+            t = t.replace('For this round make the two changes of two different KINDS: (A)', 'In earlier rounds the changes were of the kinds (A)')
+            t += ('\n\nEarlier rounds also used the kinds (C) edge of the domain / reuse of an element and (D) two cooperating places. '
+                  'For THIS round use two further kinds: (E) a change that is invisible for the element on its own and shows only when two '
+                  'framework features are combined (the element inside a Split inside a Source, inside a Zip or SplitIntoBins, with '
+                  'copy_buf=False, under FillRequest with reset, after Cache, with a Context/OrderedDict context, with a subclass of a '
+                  'framework class, driven by fill instead of run); (F) a change in validation or error discipline that the property '
+                  'covers: a check moved after state has been built, a guard narrowed or widened by one case, a wrong comparison '
+                  'operator at a boundary (< vs <=, off by one), a default taken from the wrong place, an exception converted or '
+                  'swallowed on one path only.')
+        if rnd >= 6 and rnd < 7:
             t = t.replace('For this round make the two changes of two different KINDS: (A)', 'In earlier rounds the changes were of the kinds (A)')
             t += ('\n\nFor THIS round use two other kinds instead: (C) a change that only shows on an edge of the quantified domain or on '
                   'reuse: the empty input, a single value, the second use of the same element object (a second run, a run after an '
